@@ -24,8 +24,8 @@ pub const OUTCOMES: [&str; 12] = [
     "policy-loopback", "policy-nonroutable", "resolver-noname", "resolver-only-v6-unavailable", "emfile", "bad-credentials",
 ];
 
-pub const AUTHORITIES: [&str; 14] = [
-    "host:port", "ip:port", "_check", "_udp2", "_icmp", "_CHECK", "_check:0", "_check.", "x_check", "_udp",
+pub const AUTHORITIES: [&str; 16] = [
+    "host:port", "ip:port", "_check", "_udp2", "_icmp", "_CHECK", "_check:0", "_check.", "x_check", "_udp", "_udp2:7", "_icmp:7",
     "host-no-port", "[v6]:port", "[v6]-no-port", "v6-unbracketed",
 ];
 
@@ -388,7 +388,7 @@ pub fn run(tier: Tier) -> i32 {
     // getaddrinfo runs on the blocking pool, so the resolver log is process-wide: cases whose
     // authority merely resembles a reserved name (and therefore resolves "_check", "x_check", ...)
     // run in a phase of their own, never concurrently with the reserved-authority cases
-    let lookalike = |c: &Case| matches!(c.authority.as_str(), "_CHECK" | "_check:0" | "_check." | "x_check" | "_udp");
+    let lookalike = |c: &Case| matches!(c.authority.as_str(), "_CHECK" | "_check:0" | "_check." | "x_check" | "_udp" | "_udp2:7" | "_icmp:7");
     let (phase2, phase1): (Vec<Case>, Vec<Case>) = all.into_iter().partition(|c| lookalike(c));
     let mut cs: Vec<Case> = vec![];
     let mut completed = true;
